@@ -1935,11 +1935,12 @@ impl Server {
     }
     
     /// Commands whose text does not replay to the same outcome - a random draw (SPOP), an id drawn from the clock
-    /// (XADD key * ...), a script known only by its hash (EVALSHA) - are logged by their effect instead:
-    /// `SREM key <members taken>`, `XADD key <assigned id> ...`, `EVAL <script> ...`
+    /// (XADD key * ...), a script known only by its hash (EVALSHA), a test against the clock (XCLAIM's
+    /// min-idle-time) - are logged by their effect instead: `SREM key <members taken>`,
+    /// `XADD key <assigned id> ...`, `EVAL <script> ...`, `XCLAIM key group consumer 0 <ids claimed> [options]`
     fn is_logged_by_effect(command: &str, parts: &[RespFrame]) -> bool {
         match command {
-            "SPOP" | "EVALSHA" => true,
+            "SPOP" | "EVALSHA" | "XCLAIM" => true,
             "XADD" => matches!(parts.get(2), Some(RespFrame::BulkString(Some(id))) if id.as_slice() == b"*"),
             _ => false,
         }
@@ -1972,6 +1973,37 @@ impl Server {
                 }
                 _ => None,
             },
+            "XCLAIM" => {
+                // XCLAIM key group consumer min-idle-time id [id ...] [options]: whether an id is claimed depends on how
+                // long it has been idle NOW. Log the ids that were claimed, with min-idle-time 0; the reply lists
+                // them (as ids with JUSTID, else as [id, fields] entries)
+                let items = match reply {
+                    RespFrame::Array(Some(items)) if parts.len() >= 6 => items,
+                    _ => return None,
+                };
+                let claimed: Vec<RespFrame> = items.iter().filter_map(|item| match item {
+                    RespFrame::BulkString(Some(_)) => Some(item.clone()),
+                    RespFrame::Array(Some(entry)) => match entry.first() {
+                        Some(id @ RespFrame::BulkString(Some(_))) => Some(id.clone()),
+                        _ => None,
+                    },
+                    _ => None,
+                }).collect();
+                if claimed.is_empty() {
+                    // nothing was idle long enough; the consumer is created all the same
+                    return Some(vec![RespFrame::from_string("XGROUP"), RespFrame::from_string("CREATECONSUMER"),
+                                     parts[1].clone(), parts[2].clone(), parts[3].clone()]);
+                }
+                let is_option = |frame: &RespFrame| matches!(frame, RespFrame::BulkString(Some(word))
+                    if matches!(String::from_utf8_lossy(word).to_uppercase().as_str(),
+                                "IDLE" | "TIME" | "RETRYCOUNT" | "FORCE" | "JUSTID" | "LASTID"));
+                let options = parts.iter().skip(5).position(is_option).map_or(parts.len(), |i| i + 5);
+                let mut entry = parts[..4].to_vec();
+                entry.push(RespFrame::from_string("0"));
+                entry.extend(claimed);
+                entry.extend_from_slice(&parts[options..]);
+                Some(entry)
+            }
             _ => None,
         }
     }
